@@ -1,14 +1,23 @@
 /-
   C14, "every response equals the response computed from the document state at the moment the
   request was handled": abstract model of the one piece of request-visible state that a
-  background goroutine writes without the handler thread waiting for it — `Server.resolved`
-  (internal/server/server.go: DidOpen/DidChange store the text and start
-  `go s.publishDiagnostics(ctx, uri, content)`, which later does
-  `s.resolved.Store(docURI, loader.LoadFromContent(path, content))`; Completion, Hover,
-  Definition, References, Rename and inline completion read it through `getWorkspaceResolved`
-  when the workspace has no resolved journal).
+  background goroutine writes without the handler thread waiting for it — `Server.resolved`.
 
-  `load` (text ↦ resolved journal) and the handlers are parameters: the theorems hold for every
+  internal/server/server.go (after "caches derived from a document never outlive the text they
+  were computed from"):
+    * DidOpen / didChange store the text, then `nextDocVersion` (under docVerMu) draws a fresh
+      number from the server-wide counter `docSeq`, records it in `docVersions[uri]`, DELETES
+      `resolved[uri]`, and `go s.publishDiagnosticsVersion(ctx, uri, content, version)` starts
+      the background task with the captured text and number;
+    * the task loads the include tree and `storeResolvedIfCurrent` (under docVerMu) stores it
+      only if `docVersions[uri]` still equals its number; a task that finds
+      `Features.Diagnostics` off returns before the load;
+    * DidClose (`dropDocVersion`) deletes the number and the tree;
+    * Completion, Hover, Definition, References (also Rename and inline completion) read
+      `resolved[uri]` through `getWorkspaceResolved` when the workspace has no resolved journal
+      and fall back to the document alone when there is none.
+
+  `load` (text ↦ include tree) and the handlers are parameters: the theorems hold for every
   instance.  Core Lean only (the driver imports the guard).
 -/
 namespace HL.Bg
@@ -20,42 +29,49 @@ structure St (Text Res : Type) where
   docs : Nat → Option Text
   /-- Server.resolved -/
   resolved : Nat → Option Res
-  /-- per document: the captured texts of the publish goroutines still in flight, in start order -/
-  pending : Nat → List Text
-  /-- ghost: a task for this document was started while another one was still in flight, or a
-      task of it ended without storing, and no task has been started on an idle document since -/
-  overlap : Nat → Bool
+  /-- Server.docSeq -/
+  seq : Nat
+  /-- Server.docVersions (0 = no entry; numbers start at 1) -/
+  ver : Nat → Nat
+  /-- per document: captured text and number of the tasks still in flight, in start order -/
+  pending : Nat → List (Text × Nat)
+  /-- ghost: the task of the document's current number ended without storing -/
+  skipped : Nat → Bool
 
 inductive Ev (Text : Type)
-  /-- didOpen / didChange: store the text, start a background task that captured it -/
+  /-- didOpen / didChange -/
   | change (u : Nat) (t : Text)
-  /-- the `i`-th in-flight task of document `u` stores its result (any order: the scheduler) -/
+  /-- didClose -/
+  | close (u : Nat)
+  /-- the `i`-th in-flight task of document `u` reaches storeResolvedIfCurrent (any order) -/
   | finish (u : Nat) (i : Nat)
-  /-- the `i`-th in-flight task of document `u` ends WITHOUT storing: publishDiagnostics returns
-      before the load when it finds `Features.Diagnostics` switched off -/
+  /-- the `i`-th in-flight task of document `u` ends without loading (diagnostics off) -/
   | skip (u : Nat) (i : Nat)
 
 variable {Text Res : Type}
 
-def St.init : St Text Res := ⟨fun _ => none, fun _ => none, fun _ => [], fun _ => false⟩
+def St.init : St Text Res := ⟨fun _ => none, fun _ => none, 0, fun _ => 0, fun _ => [], fun _ => false⟩
 
 def step (load : Text → Res) (σ : St Text Res) : Ev Text → St Text Res
   | .change u t =>
-    { docs := upd σ.docs u (some t), resolved := σ.resolved,
-      pending := upd σ.pending u (σ.pending u ++ [t]),
-      overlap := upd σ.overlap u (decide ((σ.pending u).length > 0)) }
+    { docs := upd σ.docs u (some t), resolved := upd σ.resolved u none,
+      seq := σ.seq + 1, ver := upd σ.ver u (σ.seq + 1),
+      pending := upd σ.pending u (σ.pending u ++ [(t, σ.seq + 1)]),
+      skipped := upd σ.skipped u false }
+  | .close u =>
+    { σ with docs := upd σ.docs u none, resolved := upd σ.resolved u none, ver := upd σ.ver u 0 }
   | .finish u i =>
     match (σ.pending u)[i]? with
     | none => σ
-    | some t =>
-      { σ with resolved := upd σ.resolved u (some (load t)),
+    | some (t, v) =>
+      { σ with resolved := if v = σ.ver u then upd σ.resolved u (some (load t)) else σ.resolved,
                pending := upd σ.pending u ((σ.pending u).eraseIdx i) }
   | .skip u i =>
     match (σ.pending u)[i]? with
     | none => σ
-    | some _ =>
+    | some (_, v) =>
       { σ with pending := upd σ.pending u ((σ.pending u).eraseIdx i),
-               overlap := upd σ.overlap u true }
+               skipped := if v = σ.ver u then upd σ.skipped u true else σ.skipped }
 
 def run (load : Text → Res) (es : List (Ev Text)) : St Text Res := es.foldl (step load) St.init
 
@@ -69,8 +85,14 @@ def specRespond {Resp : Type} (load : Text → Res) (h : Text → Option Res →
     (u : Nat) : Option Resp :=
   (σ.docs u).map fun t => h t (some (load t))
 
-/-- The document's resolved journal is guaranteed current: nothing in flight and no overlap. -/
-def settled (σ : St Text Res) (u : Nat) : Bool := (σ.pending u).isEmpty && !σ.overlap u
+/-- The fall-back response: the handler without an include tree. -/
+def bareRespond {Resp : Type} (h : Text → Option Res → Resp) (σ : St Text Res) (u : Nat) : Option Resp :=
+  (σ.docs u).map fun t => h t none
+
+/-- The task of the document's current content has stored its tree: no task carrying the
+    current number is in flight and it did not end without storing. -/
+def settled (σ : St Text Res) (u : Nat) : Bool :=
+  (σ.pending u).all (fun p => p.2 != σ.ver u) && !σ.skipped u
 
 /-! The executable guard used by the driver on the facts the harness records per response. -/
 
@@ -78,11 +100,11 @@ def settled (σ : St Text Res) (u : Nat) : Bool := (σ.pending u).isEmpty && !σ
 def readsResolved (k : String) : Bool :=
   k == "completion" || k == "hover" || k == "definition" || k == "references"
 
-/-- Known finding `stale-resolved`: a handler that reads `Server.resolved`, no resolved journal
-    from the workspace, and the document not settled (a task of it in flight; or a task of it
-    was started while another one was in flight; or a task may have ended without storing
-    because a configuration with diagnostics switched off had been sent). -/
-def staleGuard (k : String) (ws : Bool) (inflight : Nat) (overlap diagOff : Bool) : Bool :=
-  readsResolved k && !ws && (inflight > 0 || overlap || diagOff)
+/-- Known finding `resolved-pending`: a handler that reads `Server.resolved`, no resolved
+    journal from the workspace, a document with an include directive, and its include tree
+    possibly not stored yet (a task of the document still in flight, or a configuration with
+    diagnostics switched off had been sent, so that the task may have ended without loading). -/
+def pendingGuard (k : String) (ws hasInclude : Bool) (inflight : Nat) (diagOff : Bool) : Bool :=
+  readsResolved k && !ws && hasInclude && (inflight > 0 || diagOff)
 
 end HL.Bg
